@@ -202,52 +202,8 @@ func ruleC03Tag(p *Prog, a *Anchors, ba *banAnchors, r *Report) {
 			return
 		}
 		key := p.FuncName(f) + ":call TagParser"
-		pos := p.InstrPos(in)
-		// where does the parser value come from? load of field `parser` of an entry obtained by registry lookup
-		base, bn, _ := fieldLoadBase(cc.Value)
-		var regKey ssa.Value
-		if base != nil && bn != nil {
-			regKey = registryLookupKey(base, a.TagRegistry)
-		}
-		if regKey == nil {
-			r.Unk(key, pos, "a TagParser is invoked that was not obtained from the tag registry by a lookup in this function (%s); cannot relate it to a ban check", p.VN(cc.Value))
-			return
-		}
-		var guardLk *ssa.Lookup
-		g := Guarded(in, func(c ssa.Value, pol bool) bool {
-			ok := banEdge(ba.tagBan, func(k ssa.Value) bool { return p.VN(k) == p.VN(regKey) })(c, pol)
-			if ok {
-				guardLk = lookupCommaOk(c)
-			}
-			return ok
-		})
-		if !g {
-			r.Bad(key, pos, "the tag parser for name %s runs on a path that has not passed the not-banned edge of set.%s[%s]: a banned tag's code executes", p.VN(regKey), ba.tagBan, p.VN(regKey))
-			return
-		}
-		// receiver set must be the compiling template's set
-		setOK := guardLk == nil || isParserTemplateSet(guardLk.X)
-		// banned edge returns an error
-		errOK := true
-		if guardLk != nil {
-			for _, u := range refs(guardLk) {
-				if ex, ok := u.(*ssa.Extract); ok && ex.Index == 1 {
-					for _, uu := range refs(ex) {
-						if iff, ok := uu.(*ssa.If); ok && !errorReturnsOnly(f, iff.Block().Succs[0]) {
-							errOK = false
-						}
-					}
-				}
-			}
-		}
-		switch {
-		case !setOK:
-			r.Bad(key, pos, "the ban map consulted is not the compiling template's set (%s)", p.VN(guardLk.X))
-		case !errOK:
-			r.Bad(key, pos, "the banned edge does not end in an error return: compilation of a banned tag must fail")
-		default:
-			r.OK(key, pos, "guarded by !banned(%s) in <Parser>.template.set.%s; banned edge returns an error", p.VN(regKey), ba.tagBan)
-		}
+		// judged where the value is obtained: here, or — when it is a parameter of a helper — at the helper's call sites
+		judgeTagParserUse(p, a, ba, r, key, f, in, cc.Value, 0)
 	})
 }
 
